@@ -286,6 +286,19 @@ class DescriptorTransaction(_TransactionBase):
         """
         proc = TransactionResult()
         if self.descriptor_updates:
+            # all descriptors that this transaction removes (a removal always takes the whole subtree)
+            removed_handles = set()
+            for tr_item in self.descriptor_updates.values():
+                if tr_item.new is None and tr_item.old is not None:
+                    removed_handles.update(
+                        descr.Handle for descr in self._mdib.get_all_descriptors_in_subtree(tr_item.old))
+            for tr_item in self.descriptor_updates.values():
+                if tr_item.new is not None and (tr_item.new.Handle in removed_handles
+                                                or tr_item.new.parent_handle in removed_handles):
+                    # nothing has been changed so far => the mdib stays as it was
+                    msg = (f'descriptor {tr_item.new.Handle} is created or updated inside a subtree '
+                           f'that is removed in the same transaction')
+                    raise ApiUsageError(msg)
             self._mdib.mdib_version = self.new_mdib_version
             # need to know all to be deleted and to be created descriptors
             to_be_deleted_handles = [tr_item.old.Handle for tr_item in self.descriptor_updates.values()
@@ -330,12 +343,15 @@ class DescriptorTransaction(_TransactionBase):
                     self._logger.debug(  # noqa: PLE1205
                         'transaction_manager: rm descriptor Handle={}, DescriptorVersion={}',
                         orig_descriptor.Handle, orig_descriptor.DescriptorVersion)
+                    if orig_descriptor.Handle not in self._mdib.descriptions.handle:
+                        # already removed as part of the subtree of another removed descriptor
+                        continue
                     all_descriptors = self._mdib.get_all_descriptors_in_subtree(orig_descriptor)
                     self._mdib.rm_descriptors_and_states(all_descriptors)
                     proc.descr_deleted.extend([d.mk_copy() for d in all_descriptors])
                     # increment DescriptorVersion if a child descriptor is added or deleted.
                     if orig_descriptor.parent_handle is not None \
-                            and orig_descriptor.parent_handle not in to_be_deleted_handles \
+                            and orig_descriptor.parent_handle not in removed_handles \
                             and orig_descriptor.parent_handle not in to_be_updated_handles:
                         # only update parent if it is not also deleted or updated in this transaction
                         self._increment_parent_descriptor_version(proc, orig_descriptor)
